@@ -87,6 +87,25 @@ pub struct Program {
     /// cluster scenario: the session under test connects to the secondary instead of the primary
     #[serde(default)]
     pub session_on_secondary: bool,
+    /// scenario transport-sessions: sessions opened one after the other over the real transports
+    #[serde(default)]
+    pub sessions: Vec<WireSession>,
+}
+
+#[derive(Clone, Debug, Serialize, Deserialize, PartialEq)]
+pub enum Transport {
+    Tcp,
+    Ws,
+    Http,
+}
+
+/// One session over a real transport: an optional login, then commands.  Over HTTP every request is a
+/// session of its own, so the login is repeated in front of each command (`login;command`).
+#[derive(Clone, Debug, Serialize, Deserialize, PartialEq)]
+pub struct WireSession {
+    pub transport: Transport,
+    pub login: Option<Login>,
+    pub cmds: Vec<(Cmd, String)>,
 }
 
 const KEYS: [&str; 5] = ["ka", "kb", "xa", "zz", "$$sec"];
@@ -135,7 +154,36 @@ fn gen(rng: &mut Rng) -> Program {
     }
     let initial_permissions = if rng.chance(1, 4) { None } else { Some(PERMS[rng.below(PERMS.len() as u64) as usize].to_string()) };
     let session_on_secondary = rng.chance(1, 2);
-    Program { steps, initial_permissions, session_on_secondary }
+    Program { steps, initial_permissions, session_on_secondary, sessions: vec![] }
+}
+
+fn gen_login(rng: &mut Rng) -> Login {
+    match rng.below(10) {
+        0..=2 => Login::AdminOk,
+        3 => Login::AdminWrongPassword,
+        4 | 5 => Login::DbToken,
+        6 => Login::WrongToken,
+        7 | 8 => Login::UserToken,
+        _ => Login::UserWrongToken,
+    }
+}
+
+fn gen_transports(rng: &mut Rng) -> Program {
+    let n = rng.range(2, 6) as usize;
+    let mut sessions = Vec::new();
+    for _ in 0..n {
+        let transport = match rng.below(4) {
+            0 => Transport::Tcp,
+            1 => Transport::Ws,
+            _ => Transport::Http,
+        };
+        let login = if rng.chance(3, 4) { Some(gen_login(rng)) } else { None };
+        let nc = rng.range(1, 2) as usize;
+        let cmds = (0..nc).map(|_| (ALL_CMDS[rng.below(ALL_CMDS.len() as u64) as usize].clone(), KEYS[rng.below(KEYS.len() as u64) as usize].to_string())).collect();
+        sessions.push(WireSession { transport, login, cmds });
+    }
+    let initial_permissions = if rng.chance(1, 4) { None } else { Some(PERMS[rng.below(PERMS.len() as u64) as usize].to_string()) };
+    Program { steps: vec![], initial_permissions, session_on_secondary: false, sessions }
 }
 
 fn line(cmd: &Cmd, key: &str, uniq: u32) -> String {
@@ -222,6 +270,218 @@ fn perm_allows(perms: &Option<String>, kind: char, key: &str) -> bool {
             let pats = it.next().unwrap_or("");
             kinds.contains(kind) && pats.split(',').any(|pat| pattern_matches(pat, key))
         }),
+    }
+}
+
+/// The access-control reference model: may a session that is (not) an administrator, with this selection
+/// (None = none, Some(None) = database token, Some(Some(user)) = user token) and this permission list of the
+/// user, run `cmd` on `key`?
+fn model_allows(cmd: &Cmd, key: &str, is_admin: bool, selected: &Option<Option<String>>, perms: &Option<String>) -> bool {
+    let secure = key.starts_with("$$");
+    let keyed = !matches!(cmd, Cmd::Keys | Cmd::Arbiter);
+    let needs_selection_too = matches!(cmd, Cmd::CreateUser | Cmd::SetPermissions | Cmd::Snapshot);
+    match need(cmd) {
+        Need::Nothing => true,
+        // an administrator's resolve names its database itself
+        Need::Data(_) if *cmd == Cmd::Resolve && is_admin => true,
+        Need::Admin => is_admin && (!needs_selection_too || selected.is_some()),
+        Need::Selected => selected.is_some(),
+        Need::Data(kind) => match selected {
+            None => false,
+            Some(user) => {
+                if keyed && secure {
+                    is_admin
+                } else {
+                    match user {
+                        None => true,
+                        Some(_) => {
+                            if keyed {
+                                perm_allows(perms, kind, key)
+                            } else {
+                                // arbiter: conflict notices of the whole database
+                                perm_allows(perms, kind, "$conflicts")
+                            }
+                        }
+                    }
+                }
+            }
+        },
+    }
+}
+
+fn cred_label(is_admin: bool, selected: &Option<Option<String>>, perms: &Option<String>) -> String {
+    if is_admin {
+        "admin".to_string()
+    } else {
+        match selected {
+            None => "none".to_string(),
+            Some(None) => "db-token".to_string(),
+            Some(Some(_)) => format!("user-token[{}]", perms.clone().unwrap_or_else(|| "no-list".into()).split(' ').next().unwrap_or("")),
+        }
+    }
+}
+
+fn login_line(l: &Login) -> String {
+    match l {
+        Login::AdminOk => format!("auth {} {}", USER, PWD),
+        Login::AdminWrongPassword => format!("auth {} nope", USER),
+        Login::DbToken => "use-db d tok".to_string(),
+        Login::WrongToken => "use-db d nope".to_string(),
+        Login::UnknownDb => "use-db nosuch tok".to_string(),
+        Login::UserToken => "use-db d u1 pw1".to_string(),
+        Login::UserWrongToken => "use-db d u1 nope".to_string(),
+        Login::GhostUser { name } => format!("use-db d {} <Empty>", name),
+    }
+}
+
+/// what a refused command must never be answered with (replies that carry data of the node)
+fn carries_data(reply: &str) -> bool {
+    let t = reply.trim_start();
+    ["value ", "value-version ", "keys ", "cluster-state ", "dbs-list ", "pending-ops", "metrics-state", "oplog-state", "commands-list", "changed ", "changed-version ", "create-db success", "process-info"]
+        .iter()
+        .any(|p| t.starts_with(p))
+}
+
+/// Scenario transport-sessions: every session is new, so its credential is exactly what its own login gave
+/// it -- whatever sessions before it (on the same connection-handling thread or HTTP worker) had.
+fn run_wire_sessions(w: &World, own: &Arc<Databases>, prog: &Program, perms: &Option<String>, out: &mut Outcome) {
+    let mut uniq = 1000;
+    for (si, ws) in prog.sessions.iter().enumerate() {
+        let (is_admin, selected): (bool, Option<Option<String>>) = match &ws.login {
+            Some(Login::AdminOk) => (true, None),
+            Some(Login::DbToken) => (false, Some(None)),
+            Some(Login::UserToken) => (false, Some(Some("u1".into()))),
+            _ => (false, None),
+        };
+        let login = ws.login.as_ref().map(login_line);
+        let tname = match ws.transport {
+            Transport::Tcp => "tcp",
+            Transport::Ws => "ws",
+            Transport::Http => "http",
+        };
+        let mut tcp: Option<WireClient> = None;
+        let mut wsc: Option<WsClient> = None;
+        match ws.transport {
+            Transport::Tcp => {
+                let mut c = match WireClient::connect(&w.nodes[0].tcp) {
+                    Some(c) => c,
+                    None => continue,
+                };
+                if !c.greeting(2_000) {
+                    continue;
+                }
+                if let Some(l) = login.as_ref() {
+                    if c.request(l, 2_000).is_none() {
+                        continue;
+                    }
+                }
+                tcp = Some(c);
+            }
+            Transport::Ws => {
+                let mut c = match WsClient::connect(&w.nodes[0].ws) {
+                    Some(c) => c,
+                    None => continue,
+                };
+                if let Some(l) = login.as_ref() {
+                    if c.request(l, 2_000).is_none() {
+                        continue;
+                    }
+                }
+                wsc = Some(c);
+            }
+            Transport::Http => {}
+        }
+        for (cmd, key) in ws.cmds.iter() {
+            uniq += 1;
+            let l = line(cmd, key, uniq);
+            let allowed = model_allows(cmd, key, is_admin, &selected, perms);
+            if allowed && (disruptive(cmd) || matches!(cmd, Cmd::SetPermissions)) {
+                continue;
+            }
+            let cred = cred_label(is_admin, &selected, perms);
+            let before = if allowed { None } else { Some(full_state(w, own)) };
+            let replies: Option<Vec<String>> = match ws.transport {
+                Transport::Tcp => tcp.as_mut().and_then(|c| c.request(&l, 3_000)),
+                Transport::Ws => wsc.as_mut().and_then(|c| c.request(&l, 3_000)),
+                Transport::Http => {
+                    let body = match login.as_ref() {
+                        Some(lg) => format!("{};{}", lg, l),
+                        None => l.clone(),
+                    };
+                    http_request(&w.nodes[0].http, &body, 3_000).map(|r| {
+                        let entries: Vec<String> = r.split(';').map(|x| x.to_string()).collect();
+                        // the entry of the command is the last one (the login, when present, has its own)
+                        match entries.last() {
+                            Some(e) => vec![e.clone()],
+                            None => vec![],
+                        }
+                    })
+                }
+            };
+            let replies = match replies {
+                Some(r) => r,
+                None => continue,
+            };
+            if allowed {
+                out.allowed_checked += 1;
+                let refused = replies.iter().any(|m| m.contains("permission denied") || m.contains("Not auth") || m.contains("no-db-selected") || m.contains("must auth as an admin"));
+                if refused {
+                    out.violations.push(Violation::new(
+                        "allowed-but-refused",
+                        format!("{:?}:{}:{}", cmd, cred, tname),
+                        format!("session #{} over {} (login {:?}) `{}` with credential {} (permissions {:?}) => {:?}", si, tname, ws.login, l, cred, perms, replies),
+                    ));
+                }
+                if matches!(cmd, Cmd::Watch | Cmd::Arbiter) {
+                    match ws.transport {
+                        Transport::Tcp => {
+                            tcp.as_mut().and_then(|c| c.request("unwatch-all", 2_000));
+                        }
+                        Transport::Ws => {
+                            wsc.as_mut().and_then(|c| c.request("unwatch-all", 2_000));
+                        }
+                        Transport::Http => {}
+                    }
+                }
+            } else {
+                sleep_ms(5);
+                let after = full_state(w, own);
+                let before = before.unwrap();
+                out.denied_checked += 1;
+                if before != after {
+                    let what = if before.dump != after.dump {
+                        "data"
+                    } else if before.role != after.role || before.members != after.members {
+                        "cluster"
+                    } else {
+                        "queues"
+                    };
+                    out.violations.push(Violation::new(
+                        "denied-but-acted",
+                        format!("{:?}:{}:{}:{}", cmd, cred, what, tname),
+                        format!("session #{} over {} (login {:?}) `{}` with credential {} (permissions {:?}) must be refused but changed the {}: replies {:?}", si, tname, ws.login, l, cred, perms, what, replies),
+                    ));
+                }
+                let leaked: Vec<&String> = replies.iter().filter(|m| carries_data(m)).collect();
+                if !leaked.is_empty() {
+                    out.violations.push(Violation::new(
+                        "denied-but-answered",
+                        format!("{:?}:{}:{}", cmd, cred, tname),
+                        format!("session #{} over {} (login {:?}) `{}` with credential {} (permissions {:?}) must be refused but the session received {:?}", si, tname, ws.login, l, cred, perms, leaked),
+                    ));
+                }
+            }
+            if !w.alive(0) || w.role(0) != Some(nundb::bo::ClusterRole::Primary) {
+                return;
+            }
+        }
+        if let Some(mut c) = tcp.take() {
+            c.close();
+        }
+        if let Some(mut c) = wsc.take() {
+            c.close_clean();
+        }
+        sleep_ms(5);
     }
 }
 
@@ -324,6 +584,13 @@ fn execute(prog: Program, cluster: bool) -> Outcome {
     } else {
         ":session@primary"
     };
+    if !prog.sessions.is_empty() {
+        run_wire_sessions(&w, &own, &prog, &perms, &mut out);
+        for p in nundb_verif_rt::kernel::with(|k| k.panics.clone()) {
+            out.violations.push(Violation::new("panic", p.location.rsplit('/').next().unwrap_or("?").to_string(), format!("{} at {}", p.message, p.location)));
+        }
+        return out;
+    }
     let mut s = Session::new(&own);
     let mut is_admin = false;
     // Some(None) = database token session, Some(Some(user)) = user token session
@@ -387,45 +654,8 @@ fn execute(prog: Program, cluster: bool) -> Outcome {
             Step::Command { cmd, key } => {
                 uniq += 1;
                 let l = line(cmd, key, uniq);
-                let secure = key.starts_with("$$");
-                let keyed = !matches!(cmd, Cmd::Keys | Cmd::Arbiter);
-                let needs_selection_too = matches!(cmd, Cmd::CreateUser | Cmd::SetPermissions | Cmd::Snapshot);
-                let allowed = match need(cmd) {
-                    Need::Nothing => true,
-                    // an administrator's resolve names its database itself
-                    Need::Data(_) if *cmd == Cmd::Resolve && is_admin => true,
-                    Need::Admin => is_admin && (!needs_selection_too || selected.is_some()),
-                    Need::Selected => selected.is_some(),
-                    Need::Data(kind) => match &selected {
-                        None => false,
-                        Some(user) => {
-                            if keyed && secure {
-                                is_admin
-                            } else {
-                                match user {
-                                    None => true,
-                                    Some(_) => {
-                                        if keyed {
-                                            perm_allows(&perms, kind, key)
-                                        } else {
-                                            // arbiter: conflict notices of the whole database
-                                            perm_allows(&perms, kind, "$conflicts")
-                                        }
-                                    }
-                                }
-                            }
-                        }
-                    },
-                };
-                let cred = if is_admin {
-                    "admin".to_string()
-                } else {
-                    match &selected {
-                        None => "none".to_string(),
-                        Some(None) => "db-token".to_string(),
-                        Some(Some(_)) => format!("user-token[{}]", perms.clone().unwrap_or_else(|| "no-list".into()).split(' ').next().unwrap_or("")),
-                    }
-                };
+                let allowed = model_allows(cmd, key, is_admin, &selected, &perms);
+                let cred = cred_label(is_admin, &selected, &perms);
                 if allowed {
                     if disruptive(cmd) {
                         continue;
@@ -516,13 +746,13 @@ impl Property for C09 {
         "C09"
     }
     fn scenarios(&self) -> Vec<(&'static str, u32)> {
-        vec![("matrix", 7), ("matrix-with-secondary", 1)]
+        vec![("matrix", 6), ("matrix-with-secondary", 1), ("transport-sessions", 1)]
     }
     fn budget(&self) -> (u64, u64) {
         (200_000, 4_000_000)
     }
     fn rule(&self) -> &'static str {
-        "one session performs 1-6 steps of {login: administrator ok / wrong password, database token, wrong token, unknown database, user token ok / wrong; the administrator (another session) replaces or removes the user's permission list mid-session; one of 35 commands (every command word of the parser) on one of 5 keys incl. a $$ key}, permission lists from 9 lists over {r,w,i,x} with prefix*, *suffix and contains patterns. Access-control reference model: administrative and cluster commands need the administrator login; data commands need a selected database and, for user-token sessions, a permission entry of the right kind whose pattern matches the key; $$ keys need the administrator. Denied => the full white-box state (all databases, role, member table, snapshot queue, pending operations) is unchanged and the session receives no data line; allowed => no permission/credential error. Disruptive cluster commands are only tested for refusal. Scenario matrix-with-secondary runs the same walk on the primary or on the secondary of a 2-node cluster: a refused command must leave the data of the other node unchanged as well. Non-trivial: at least one denied command was checked. distinct = distinct programs."
+        "one session performs 1-6 steps of {login: administrator ok / wrong password, database token, wrong token, unknown database, user token ok / wrong; the administrator (another session) replaces or removes the user's permission list mid-session; one of 35 commands (every command word of the parser) on one of 5 keys incl. a $$ key}, permission lists from 9 lists over {r,w,i,x} with prefix*, *suffix and contains patterns. Access-control reference model: administrative and cluster commands need the administrator login; data commands need a selected database and, for user-token sessions, a permission entry of the right kind whose pattern matches the key; $$ keys need the administrator. Denied => the full white-box state (all databases, role, member table, snapshot queue, pending operations) is unchanged and the session receives no data line; allowed => no permission/credential error. Disruptive cluster commands are only tested for refusal. Scenario matrix-with-secondary runs the same walk on the primary or on the secondary of a 2-node cluster: a refused command must leave the data of the other node unchanged as well. Scenario transport-sessions opens 2-6 sessions one after the other over the real TCP, WebSocket and HTTP front ends (HTTP: one request = one session, `login;command`), each with its own login (or none) and 1-2 commands: a session's credential is what its own login gave it, whatever earlier sessions served by the same thread / HTTP worker had (same model, same denied => unchanged + no data reply). Non-trivial: at least one denied command was checked. distinct = distinct programs."
     }
     fn assumptions(&self) -> Vec<String> {
         vec![
@@ -531,13 +761,19 @@ impl Property for C09 {
         ]
     }
     fn components(&self) -> Json {
-        json!({"real": ["process_request", "security (apply_if_auth, apply_if_safe_access, has_permission)", "parse_request", "election/join/leave handlers"], "simulated": ["threads", "clock"], "stub": []})
+        json!({"real": ["process_request", "security (apply_if_auth, apply_if_safe_access, has_permission)", "parse_request", "election/join/leave handlers", "tcp_ops / ws_ops handler / http_ops workers (scenario transport-sessions)"], "simulated": ["threads", "clock", "TCP", "ws and tiny_http wire layers"], "stub": []})
     }
     fn run_one(&self, scenario: &str, ctx: &RunCtx) -> RunReport {
         let mut rng = Rng::new(ctx.seed);
         let prog: Program = match &ctx.program {
             Some(p) => serde_json::from_value(p.clone()).expect("program"),
-            None => gen(&mut rng),
+            None => {
+                if scenario == "transport-sessions" {
+                    gen_transports(&mut rng)
+                } else {
+                    gen(&mut rng)
+                }
+            }
         };
         let mut cfg = SimConfig::new(ctx.seed ^ 0xc09);
         cfg.policy = policy_for(Rng::new(ctx.seed ^ 0x9011c7).next_u64());
@@ -578,6 +814,20 @@ impl Property for C09 {
             Err(_) => return vec![],
         };
         let mut out = Vec::new();
+        for i in 0..p.sessions.len() {
+            if p.sessions.len() > 1 {
+                let mut q = p.clone();
+                q.sessions.remove(i);
+                out.push(serde_json::to_value(&q).unwrap());
+            }
+            if p.sessions[i].cmds.len() > 1 {
+                for j in 0..p.sessions[i].cmds.len() {
+                    let mut q = p.clone();
+                    q.sessions[i].cmds.remove(j);
+                    out.push(serde_json::to_value(&q).unwrap());
+                }
+            }
+        }
         for i in 0..p.steps.len() {
             if p.steps.len() > 1 {
                 let mut q = p.clone();
